@@ -828,6 +828,8 @@ def operator_call(eng, n, st):
                 s.pc.append(r != NULL)
                 if src.fresh or src.stable:
                     s.pc.append(M.py_len(r) == M.py_len(src.ref))
+                    i_cp = z3.Int('i!lcp')
+                    s.facts.append(z3.ForAll([i_cp], M.py_item(r, i_cp) == M.py_item(src.ref, i_cp), patterns=[M.py_item(r, i_cp)]))
                 else:
                     eng.may_call_python(s, 'copy() of a user-reachable object', line)
                 outs.append((s, PyObj(r, fresh=True)))
